@@ -149,6 +149,13 @@ def step (s : St) (toks : List String) : Option (St × String × String) :=
       let m := if s.file then s.fs.predecessors n else s.mem.predecessors n
       let sp := s.absMan.eraseDups.filter (fun p => (c.succ p).contains n)
       some (s, showSet m, showSet sp)
+  | "overlap" :: rest => do
+      -- two pushes of one descriptor that overlap in time.  Specification: in either
+      -- sequential order of the two exactly one is accepted.  The code: the memory store
+      -- commits with one atomic load-or-store and the file store serialises per name; the
+      -- OCI layout commits with rename(2), which replaces an existing blob silently.
+      let kind ← kv rest "kind"
+      some (s, (if kind == "oci" then "accepted=2" else "accepted=1"), "accepted=1")
   | _ => none
 
 end Oras.Driver.S
